@@ -18,6 +18,14 @@ CLAIMED = {
                 text='Knot insertion preserves the shape: identity between the spec curve/surface/volume of the original definition and the '
                      'evaluation of the object after insert_knot, for symbolic knots, insertion value, parameter, control points and weights.',
                 note=_B_NOTE),
+    'C09': dict(category='other', technique='contracts on the real functions; per-shape exhaustive symbolic execution (symx), SMT-discharged VCs (pyvc) for the converters',
+                text='Weighted / unweighted / weights views related by multiplication after every setter history (2- and 3-step histories from every cache state), '
+                     'converter pairs mutually inverse, GridWeighted applies each point\'s own weight, weight scaling moves no point: identities on symbolic points and positive weights.',
+                note=_B_NOTE),
+    'C19': dict(category='other', technique='contracts on the real functions; per-shape exhaustive symbolic execution (symx)',
+                text='== is reflexive, symmetric, holds for deep copies, fails for different kind/rationality/degree/size and for any single component changed by more than the tolerance '
+                     '(symbolic eps with |eps| > 1/1000), holds for |eps| < 1e-20.',
+                note=_B_NOTE),
 }
 
 _TODO = 'check not built yet in this revision (work in progress; see DESIGN.md section 7 for the planned contract)'
